@@ -101,7 +101,11 @@ CHECKS = {
         technique="TLA+ decision table (TLC exhaustive) + TLC validation of real handler activations on fakes"),
     "C09": dict(
         category="model_checking",
-        text="The real daemons run 16-round maintenance histories on the fakes: operator actions while paused (move the "
+        text="Maint.tla models the maintenance protocol (record absent/requested/acked/leaving, processes in manager/candidate/lost/"
+             "maintenance/down, marker file, lock, operator promoting servers by hand, ZooKeeper outages, restarts); TLC proves "
+             "that only a process in state Lost ever acts under acknowledged maintenance, that the record is removed only with "
+             "exactly one alive master which is then recorded, and exhibits the S9 path. "
+             "The real daemons run 16-round maintenance histories on the fakes: operator actions while paused (move the "
              "master, two masters, no master, stop replication, crash), disturbances (restarts, kills, ZooKeeper loss by the "
              "manager / all / not-yet-acknowledging candidates), +-disable semi-sync, with a committing workload; the frozen "
              "window, every removal of the record (with what the leaving activation observed when it started), kept "
